@@ -243,6 +243,67 @@ fn main() {
         srv::runtime,
         |rt, c| replicated(rt, c),
     );
+    // Dense "delete raced a local reference" scenarios: replica 0 deletes the target and may push it
+    // through the recycle bin to a tombstone BEFORE replicating, while replica 1 meanwhile added its own
+    // reference to the target. Uniform histories almost never line these steps up (a seeded refint
+    // change that only mishandled the live -> tombstone jump went unnoticed before this sub-check).
+    let n3 = cx.tier.pick(120, 3_000);
+    cx.prop(
+        "delete-vs-local-reference",
+        PropCfg::new(n3).shrink(200),
+        || {
+            use vf_world::ops::Ref;
+            let target = prop_oneof![Just(Ref::P(0)), Just(Ref::G(1)), Just(Ref::S(0))];
+            let local_ref = prop_oneof![
+                3 => Just(0u8), // member of a group
+                2 => Just(1u8), // entry manager
+                1 => Just(2u8), // oauth2 scope map (group targets only)
+            ];
+            (target, local_ref, 0u8..4, any::<bool>(), any::<bool>(), proptest::collection::vec(0u8..6, 0..4)).prop_map(|(t, kind, purge, late_ref, back, noise)| {
+                let mut s = vec![
+                    Step::Do { r: 0, op: Op::CreatePerson { i: 0, name: 0 } },
+                    Step::Do { r: 0, op: Op::CreatePerson { i: 1, name: 1 } },
+                    Step::Do { r: 0, op: Op::CreateService { i: 0, name: 2 } },
+                    Step::Do { r: 0, op: Op::CreateGroup { i: 0, name: 3, members: vec![] } },
+                    Step::Do { r: 0, op: Op::CreateGroup { i: 1, name: 4, members: vec![] } },
+                    Step::Do { r: 0, op: Op::CreateOAuth2 { i: 0, name: 5, group: Ref::G(0) } },
+                    Step::Repl { from: 0, to: 1 },
+                ];
+                let reference = match (kind, t) {
+                    (2, Ref::G(_)) => Op::SetScopeMap { o: 0, group: t },
+                    (1, _) => Op::SetManager { t: Ref::P(1), by: t },
+                    _ => Op::AddMember { g: Ref::G(0), m: t },
+                };
+                if !late_ref {
+                    s.push(Step::Do { r: 1, op: reference.clone() });
+                }
+                s.push(Step::Do { r: 0, op: Op::Delete { t } });
+                // 0: replicate while recycled; 1..3: age past the recycle bin (and the changelog) first
+                if purge >= 1 {
+                    s.push(Step::Do { r: 0, op: Op::Advance { secs: 7 * 86_400 + 2 } });
+                    s.push(Step::Do { r: 0, op: Op::PurgeRecycled });
+                }
+                if purge >= 3 {
+                    s.push(Step::Do { r: 0, op: Op::Advance { secs: 3600 } });
+                    s.push(Step::Do { r: 0, op: Op::PurgeTombstones });
+                }
+                if late_ref {
+                    s.push(Step::Do { r: 1, op: reference });
+                }
+                for n in noise {
+                    s.push(Step::Do { r: (n % 2), op: Op::SetAttr { t: Ref::P(1), attr: vf_world::ops::AttrK::Description, vals: vec![n % 4] } });
+                }
+                s.push(Step::Repl { from: 0, to: 1 });
+                if back {
+                    s.push(Step::Repl { from: 1, to: 0 });
+                    s.push(Step::Repl { from: 0, to: 1 });
+                }
+                RCase { steps: s }
+            })
+        },
+        srv::runtime,
+        |rt, c| replicated(rt, c),
+    );
     cx.require_class("delete-of-referenced-entry", 80);
     cx.require_class("delete-of-entry-referenced-by>=2", 10);
     cx.require_class("refused:ref-to-absent", 30);
